@@ -109,8 +109,15 @@ pub fn run(source: &Path) -> Result<()> {
         let rtx = old_db.begin_read()?;
         let wtx = new_db.begin_write()?;
 
-        let existing: std::collections::HashSet<String> =
-            rtx.list_tables()?.map(|h| h.name().to_string()).collect();
+        // `list_tables` does not include multimap tables, they are listed separately
+        let existing: std::collections::HashSet<String> = rtx
+            .list_tables()?
+            .map(|h| h.name().to_string())
+            .chain(
+                rtx.list_multimap_tables()?
+                    .map(|h| h.name().to_string()),
+            )
+            .collect();
 
         migrate_table!(existing, rtx, wtx, new::AUTHORS_TABLE, new::AUTHORS_TABLE);
         migrate_table!(
